@@ -36,6 +36,7 @@ type ctx struct {
 	nameList []string
 	side     map[string]interface{} // JSON side file
 	sigs     map[string]map[string]int
+	printerDefaults map[string][]string
 }
 
 func (c *ctx) intern(s string) int {
